@@ -331,7 +331,17 @@ def unsplit_guard(ctx, base, other):
     missing = [k for k, v in need.items() if not v]
     if missing:
         return False, "merge of another handle's extent without the conjunct(s): %s" % ", ".join(missing)
-    return True, "merge under end-adjacency, both shared-kind and same control block"
+    # ... and under nothing more that depends on who else holds the buffer: two adjacent views of one control block are merged in place
+    # whenever they are adjacent (C07: unsplit of contiguous halves never copies); a test of the reference count / uniqueness on the way
+    # sends contiguous halves to the copying fallback as soon as a third view exists
+    for r in ctx.rels:
+        for side in r[1:3]:
+            if not isinstance(side, tuple):
+                continue
+            for x in walk(side):
+                if isinstance(x, tuple) and x and x[0] == "call" and ((x[1].endswith("::load") and "tomic" in x[1]) or x[1].rsplit("::", 1)[-1] == "is_unique"):
+                    return False, "the in-place merge of adjacent halves additionally depends on `%s`: contiguous halves are copied instead of merged when other views of the buffer exist" % fmt_expr(x)[:60]
+    return True, "merge under end-adjacency, both shared-kind and same control block (and no condition on other holders)"
 
 
 def bytes_before_pointer(b, w, E, base, calls, cfg, ctx):
